@@ -237,6 +237,20 @@ class MqttRun:
                 self.tr._receive_error(TransportError("injected broker error"))
             self.dead = True
             self.events.append({"op": "broker_error"})
+        elif op == "cancel_read":
+            # the application gives up waiting (a timeout around read): nothing that arrives later may be lost to it
+            if not self.reads:
+                return
+            rid, task = next(iter(self.reads.items()))
+            if task.done():
+                return
+            task.cancel()
+            try:
+                self.loop.run_until_complete(task)
+            except BaseException:  # noqa: BLE001
+                pass
+            del self.reads[rid]
+            self.events.append({"op": "read_cancelled", "id": rid})
         elif op == "read":
             if self.reads:
                 return
@@ -348,6 +362,14 @@ def random_jobs(rnd: random.Random, n: int) -> list:
             burst = rnd.choice([30, 120, 260])
             cmds = [["connect", "ok"]] + [["broker_msg", f"{inp}/1/1/1/0/2", list(str(i).encode())] for i in range(burst)]
             cmds += [["read"]] * (burst + 1)
+        if k % 40 in (4, 14):
+            # a read that is cancelled while nothing has arrived; what arrives afterwards reaches the next reads
+            t1, t2 = f"{inp}/1/1/1/0/2", f"{inp}/2/1/1/1/0"
+            cmds = [["connect", "ok"], ["read"], ["cancel_read"], ["broker_msg", t1, list(b"one")], ["broker_msg", t2, list(b"\xff")],
+                    ["broker_msg", t2, list(b"three")], ["read"], ["read"], ["read"]]
+            if k % 40 == 14:
+                cmds = [["connect", "ok"], ["broker_msg", t1, list(b"zero")], ["read"], ["read"], ["cancel_read"], ["read"], ["cancel_read"],
+                        ["broker_msg", t1, list(b"one")], ["read"], ["broker_error"], ["read"]]
         if k % 40 in (9, 19, 29):
             # the same transport object is disconnected and connected again: what was received and not yet read is
             # still delivered, in order, exactly once; a read that was already waiting gets the next message
